@@ -99,6 +99,12 @@ def gen_cases(rng, tier):
         m["api_containers"] = rng.choice([None, None, "tuple", "generator", "map", "amend_after_write"])
     if groute == "api" and i % 4:
       m["api_results"] = [None, "numpy0d", "numpy0d_int", "numpy0d_cached"][i % 4]
+    if i % 5 == 2:
+      # grids on which (n-1)*cutoff/(n-1) does not give the cutoff back: the last row of every sheet is the cutoff
+      g1, g2 = spec.MULDIV_GRIDS[(i // 5) % len(spec.MULDIV_GRIDS)], spec.MULDIV_GRIDS[(i // 5 + 3) % len(spec.MULDIV_GRIDS)]
+      m["tab"]["cutoff"], m["tab"]["nr"] = g1
+      if "nrho" in m["tab"]:
+        m["tab"]["cutoff_rho"], m["tab"]["nrho"] = g2
     cases.append({"kind": "excel", "route": route, "model": m, "style": rng.randrange(1 << 30)})
   # look-alike labels, deterministically: 'Ce-O' next to 'Ce+-O' ('+' collates before '-'): the order of the species
   # tuples and the order of the 'A-B' strings differ, so a column filled in one order and headed in the other shows
@@ -403,12 +409,31 @@ def run_excel(case, ctx, rng):
       ctx.count("out_of_domain")
       return
   try:
+    live = None
     if route == "api_class":
-      data = routes.write_tab(routes.pair_tab_api(model) if kind == "pair" else routes.eam_tab_api(model))
+      tab_ = routes.pair_tab_api(model) if kind == "pair" else routes.eam_tab_api(model)
+      data = routes.write_tab(tab_)
+      live = tab_.workbook
+    elif route == "potable":
+      text_ = emit.model_text(model, emit.Style(rng))
+      tab_ = routes.read_config(text_)
+      data = routes.write_tab(tab_)
+      live = tab_.workbook
     else:
       data = potable_out(ctx, model, route, rng)
       if data is None:
         return
+    if live is not None:
+      # the workbook object holds the doubles themselves (the xlsx file keeps 16 significant digits): the first column of
+      # every sheet ends at the cutoff exactly, not at a rounding of (n-1)*cutoff/(n-1) that may lie beyond it
+      cut_r, cut_rho = float(model["tab"]["cutoff"]), float(model["tab"].get("cutoff_rho", 0) or 0)
+      for ws_ in live.worksheets:
+        last = [c_.value for c_ in list(ws_.columns)[0]][-1]
+        want_ = cut_rho if ws_.title == "EAM-Embed" else cut_r
+        ctx.count("xlsx_last_rows_checked")
+        if isinstance(last, (int, float)) and int(model["tab"]["nr"]) >= 2 and float(last) != want_:
+          ctx.violation("xlsx_grid", "sheet %s of the workbook object ends at %r, the cutoff is %r" % (ws_.title, float(last), want_), what="xlsx_grid", mech="last_row_not_the_cutoff")
+          return
   except Exception as e:
     return fail_exc(ctx, e)
   try:
